@@ -134,7 +134,15 @@ def gen_index(tier, seed):
         lines.append(f"case {n} index order={''.join(order) or '-'}")
         n += 1
         for l in "abcde":
-            lines.append(f"dim ${H[l]} {dim_tok(l)}")
+            if r.random() < 0.4:
+                # derived from a dimension that was in use, with the items in another order and one more of them
+                name_, ty_, its_ = DIMS[l]
+                parent = ([("i77" if ty_ == "i" else "szz")] + list(reversed(its_)))
+                lines.append(f"dim ${95 + 'abcde'.index(l)} D:{l}:{name_}:{ty_}:{','.join(parent)}")
+                lines.append(f"dimfrom ${H[l]} ${95 + 'abcde'.index(l)} {dim_tok(l)}")
+                stats["derived_dimensions"] = stats.get("derived_dimensions", 0) + 1
+            else:
+                lines.append(f"dim ${H[l]} {dim_tok(l)}")
         lines.append((f"dset $10 " + " ".join(f"${H[l]}" for l in order)).rstrip())
         its = [DIMS[l][2] for l in order]
         lines.append(f"arr $20 $10 {shape_of(its)} {vals(r, size_of(its))}")
